@@ -16,14 +16,14 @@ reg(Prop('C12', [
     clauses=['cfi_offset_exact_or_error', 'cfi_factored_offset_exact_or_error', 'cfi_factors_exact_or_error', 'cfi_advance_exact_or_error',
              'cfi_insn_convert_sound', 'cfi_insn_convert_each', 'cfi_convert_write_read_sound', 'cfi_normal_form_cie', 'cfi_normal_form_fde',
              'expr_convert_sound', 'expr_convert_sound_bytes', 'expr_branch_target_exact', 'expr_offsets_sorted',
-             'expr_converted_well_typed', 'expr_fuel_suffices',
+             'expr_converted_well_typed', 'expr_fuel_suffices', 'expr_normal_form_partial',
              'range_convert_sound', 'loc_convert_sound', 'list_normal_form_v5', 'list_normal_form_v4',
              'attr_convert_sound', 'attr_file_index_rule', 'attr_file_index_written', 'attr_implicit_const',
              'attr_flag_present', 'attr_dwo_id_normal_form'],
     explored_only=[
         'whole-pipeline meaning preservation (Dwarf::from with entry ids / string tables / line programs, FrameTable::from for both sections incl. CIE/FDE headers, pointer encodings, personality/LSDA): semantic-dump oracle on the compiler corpus and on generated CFI / line programs',
         'ConvertLineProgram (line_convert_sound): oracle streams c12.line / c12.vliw only; two known findings (mid-sequence set_address, VLIW op_index)',
-        'second conversion reproduces the first for expressions and whole units (semantic equality + identical abbreviation table): oracle; proved only for CFI programs and range/location lists',
+        'second conversion reproduces the first for whole expressions and whole units (semantic equality + identical abbreviation table): oracle; proved for CFI programs, range/location lists and, per operation, for expressions (expr_normal_form_partial)',
         'the converted table read back has an unwind table at all (cfi_convert_write_read_sound is conditional on the read-back run succeeding; the oracle stream c12.cfi re-reads every converted table)',
     ],
     technique='Coq component theorems that compose the reader-side meaning (C03/C06/C07/C08) with the writer-side read-back theorems (C11/C14/C15/C16) through hand-written models of the converters, each model tied to gimli by a correspondence stream comparing the converted write-side objects; plus the semantic-dump round-trip oracle on the implementation (meaning(in) = meaning(read(write(convert(in)))) or Err)',
